@@ -154,7 +154,7 @@ def run_case(desc):
 
 @st.composite
 def cases(draw, max_n=6):
-    cfg = draw(sg.stock_configs(classes=("idsm", "sdsm_manual", "sdsm_lapack"), max_n=max_n, signed=True))
+    cfg = draw(sg.stock_configs(classes=("idsm", "sdsm_manual", "sdsm_lapack"), max_n=max_n, signed=True, long_grid=40))
     # per-cohort parameters are kept (causality must hold with them too)
     n = 1
     for d in sg.universe_of(cfg)["dims"]:
